@@ -218,11 +218,22 @@ def r5_1(ctx):
                 return None
 
             # accumulator form: `_length = acc` with acc += ... in loops
-            acc_sets = [x for x in ols if x[0] == "set" and isinstance(x[2], ast.Name) and _is_accumulator(f, x[2].id)]
+            def _acc_name(v):
+                """follow single-definition name aliases (total = offset) to an accumulator name."""
+                seen = 0
+                while isinstance(v, ast.Name) and not _is_accumulator(f, v.id) and seen < 4:
+                    ds = [n_ for n_ in walk_local(f.node) if isinstance(n_, ast.Assign) and len(n_.targets) == 1 and norm(n_.targets[0]) == v.id]
+                    if len(ds) != 1:
+                        break
+                    v = ds[0].value
+                    seen += 1
+                return v.id if isinstance(v, ast.Name) and _is_accumulator(f, v.id) else None
+
+            acc_sets = [x for x in ols if x[0] == "set" and _acc_name(x[2]) is not None]
             handled_ts: Set[int] = set()
             handled_ls: Set[int] = set()
             for kind, _o, vexpr, st in acc_sets:
-                acc = vexpr.id
+                acc = _acc_name(vexpr)
                 ok, why, used = _check_accumulator(f, g, rd, sym, obj, acc, ots)
                 handled_ls.add(id(st))
                 handled_ts |= used
